@@ -46,6 +46,12 @@ pub struct Tls {
     pub reacting: Cell<bool>,
     /// wake-ups delivered inside a library call with no `CheckedLock` held (whole history)
     pub window_wakes: Cell<u32>,
+    /// "second thread between two critical sections": called once, from the first
+    /// `CheckedLock::unlock` inside a library call that leaves no lock held
+    pub unlock_hook: Cell<Option<(usize, unsafe fn(usize))>>,
+    pub hook_fired: Cell<bool>,
+    /// the call took a `CheckedLock` again after the hook had fired
+    pub hook_relocked: Cell<bool>,
 }
 
 #[allow(clippy::declare_interior_mutable_const)]
@@ -78,6 +84,9 @@ thread_local! {
         reactor: Cell::new(None),
         reacting: Cell::new(false),
         window_wakes: Cell::new(0),
+        unlock_hook: Cell::new(None),
+        hook_fired: Cell::new(false),
+        hook_relocked: Cell::new(false),
     } };
 }
 
@@ -131,6 +140,9 @@ pub fn reset_history() {
         t.reactor.set(None);
         t.reacting.set(false);
         t.window_wakes.set(0);
+        t.unlock_hook.set(None);
+        t.hook_fired.set(false);
+        t.hook_relocked.set(false);
         t.armed.set(false);
         t.allocs.set(0);
         t.deallocs.set(0);
@@ -201,9 +213,51 @@ pub fn clock_set(v: u64) {
 
 /// `CheckedLock` bookkeeping: +1 on lock, -1 on unlock.
 pub fn lock_delta(d: i32) {
-    TLS.with(|t| {
+    let fire = TLS.with(|t| {
         let v = t.locks_held.get();
         t.locks_held.set(if d > 0 { v + 1 } else { v.saturating_sub(1) });
+        if t.reacting.get() || !t.in_call.get() {
+            return None;
+        }
+        if d > 0 {
+            if t.hook_fired.get() {
+                t.hook_relocked.set(true);
+            }
+            None
+        } else if t.locks_held.get() == 0 && !t.hook_fired.get() && !std::thread::panicking() {
+            t.unlock_hook.get()
+        } else {
+            None
+        }
+    });
+    if let Some((ctx, f)) = fire {
+        TLS.with(|t| {
+            t.hook_fired.set(true);
+            t.reacting.set(true);
+        });
+        unsafe { f(ctx) };
+        TLS.with(|t| t.reacting.set(false));
+    }
+}
+
+/// Installs the callback that plays a second thread's complete API call at the first instant
+/// inside the next library call at which the primitive's internal (`CheckedLock`) lock is free
+/// again. With one critical section per call - the unchanged tree - that instant is after the
+/// call took effect, so the history is the sequential "call; injected call". A call that is split
+/// into several critical sections gets the injected call in between.
+pub fn install_unlock_hook(ctx: usize, f: unsafe fn(usize)) {
+    TLS.with(|t| {
+        t.unlock_hook.set(Some((ctx, f)));
+        t.hook_fired.set(false);
+        t.hook_relocked.set(false);
+    })
+}
+
+/// Removes the hook; returns (fired, the call locked again after it fired).
+pub fn remove_unlock_hook() -> (bool, bool) {
+    TLS.with(|t| {
+        t.unlock_hook.set(None);
+        (t.hook_fired.replace(false), t.hook_relocked.replace(false))
     })
 }
 
